@@ -442,6 +442,7 @@ def main(tier, seed, replay=None):
             dt_model += dtm
             mres[tag] = m
     nviol, kf_seen, verdicts, model_diffs, drift = 0, {}, {}, 0, 0
+    unexplained_diffs = 0
     regimes, samples, snaps_used = {}, [], 0
     for tag, group in (("plain", plain_sets), ("snap", snap_sets)):
         for cs, runs in group:
@@ -514,7 +515,9 @@ def main(tier, seed, replay=None):
                 model_diffs += 1
                 if replay:
                     print("model/impl difference in run %s: %s" % (l, why[:600]))
-                if not bad and model_diffs == 1:
+                if not bad:
+                    unexplained_diffs += 1
+                if not bad and unexplained_diffs == 1:
                     violation(PROP, {"property": PROP, "kind": "model!=impl", "snap_overlay": tag == "snap",
                                      "broken": "correspondence: the extracted model of the import (theories/Import.v) and builder.FromPcap disagree on an input where the implementation meets the oracle; the theorems no longer describe this code",
                                      "run": l, "difference": why[:1500],
